@@ -155,6 +155,9 @@ pub enum BadReq {
     /// (position, byte, 0 replace / 1 insert / 2 delete). Whatever it has become, it is one
     /// complete request that cannot change the store: it must be answered (2xx or 4xx)
     Mangled { template: u8, edits: Vec<(u16, u8, u8)> },
+    /// a request whose head is fine and whose chunked body breaks after some bytes (a chunk size
+    /// that is no hex number): route 0 = POST /<topic>, 1 = POST /cas, 2 = POST /import
+    BrokenBody { route: u8 },
 }
 
 #[derive(Clone, Debug, PartialEq, Serialize, Deserialize)]
@@ -240,6 +243,7 @@ impl Op {
                 BadReq::UnknownMethod { .. } => "unknown-method",
                 BadReq::KeepAlive { .. } => "keep-alive-sequence",
                 BadReq::Mangled { .. } => "mangled-get",
+                BadReq::BrokenBody { .. } => "broken-body",
             },
         }
     }
@@ -677,6 +681,7 @@ pub fn bad_req(_p: &Profile) -> BoxedStrategy<BadReq> {
         3 => proptest::collection::vec(0u8..8, 2..7).prop_map(|kinds| BadReq::KeepAlive { kinds }),
         6 => (0u8..8, proptest::collection::vec((any::<u16>(), any::<u8>(), 0u8..3), 1..4))
             .prop_map(|(template, edits)| BadReq::Mangled { template, edits }),
+        2 => (0u8..3).prop_map(|route| BadReq::BrokenBody { route }),
         2 => (
             proptest::sample::select(vec!["PUT", "PATCH", "OPTIONS", "TRACE", "HEAD"]).prop_map(|s| s.to_string()),
             proptest::sample::select(vec!["/", "/x", "/cas", "/import", "/version", "/head/x"]).prop_map(|s| s.to_string()),
@@ -1974,6 +1979,45 @@ impl Interp {
         if let BadReq::Mangled { template, edits } = b {
             return self.mangled(&sock, *template, edits);
         }
+        if let BadReq::BrokenBody { route } = b {
+            let path = match route % 3 {
+                0 => "/broken.body",
+                1 => "/cas",
+                _ => "/import",
+            };
+            let raw = format!("POST {path} HTTP/1.1\r\nHost: localhost\r\nTransfer-Encoding: chunked\r\nConnection: close\r\n\r\n5\r\nhello\r\nZZZ\r\nworld\r\n0\r\n\r\n");
+            self.http_requests += 1;
+            self.checks += 1;
+            let resp = match crate::http::roundtrip_raw(&sock, raw.as_bytes(), crate::httpx::T) {
+                Ok(r) => r,
+                Err(crate::http::HttpErr::Connect(e)) => return Err(infra(format!("connect: {e}"))),
+                Err(e) => {
+                    return Err(Fail::new(Class::Http, format!("POST {path} with a chunked body that breaks after 5 bytes got no well-formed response: {e:?}")))
+                }
+            };
+            if !(400..500).contains(&resp.status) {
+                let sig = "http-500-for-broken-request-body";
+                if resp.status == 500 && crate::runner::known().lists(sig) {
+                    self.known_hits.push(sig.to_string());
+                } else {
+                    return Err(Fail::new(
+                        Class::Http,
+                        format!("POST {path} with a chunked body that breaks after 5 bytes (a client error) was answered {} {:?}", resp.status, resp.text().chars().take(120).collect::<String>()),
+                    ));
+                }
+            }
+            // nothing of it may have been stored, and the server must still answer
+            self.stream_read(ReadPath::Sync, None, None, None).map_err(|mut f| {
+                f.class = Class::Http;
+                f.msg = format!("after a request with a broken body to {path}: {}", f.msg);
+                f
+            })?;
+            return match crate::httpx::version(&sock) {
+                crate::httpx::HOut::Ok(_) => Ok(()),
+                crate::httpx::HOut::Infra(e) => Err(infra(format!("connect: {e}"))),
+                other => Err(Fail::new(Class::Http, format!("after a request with a broken body GET /version answered {other:?}"))),
+            };
+        }
         let mut allow_404 = false;
         let req = match b {
             BadReq::BadId { delete, id } => {
@@ -2031,7 +2075,7 @@ impl Interp {
                 allow_404 = true;
                 Req::new(method, path)
             }
-            BadReq::KeepAlive { .. } | BadReq::Mangled { .. } => unreachable!(),
+            BadReq::KeepAlive { .. } | BadReq::Mangled { .. } | BadReq::BrokenBody { .. } => unreachable!(),
         };
         self.http_requests += 1;
         self.checks += 1;
